@@ -30,7 +30,7 @@ impl Default for Weights {
     fn default() -> Self {
         Weights {
             write: 30,
-            weak: 1,
+            weak: 0,
             batch: 6,
             clear: 1,
             ingest: 2,
